@@ -32,7 +32,7 @@ def thresholds(tier):
 
 def knobs_for(rng):
   return {"depth": rng.choice([1, 2, 2, 3]), "max_children": rng.choice([2, 3]), "p_ff": 0.25, "p_connect": 0.4, "p_split": 0.3,
-          "p_struct": 0.25, "p_list": 0.2, "max_sigs": 4, "expr_depth": 1, "p_constraints": 0.7, "p_ff_child": rng.choice([0, 0.3]), "p_func": rng.choice([0, 0.3])}
+          "p_struct": 0.25, "p_list": rng.choice([0.2, 0.45]), "p_list2d": rng.choice([0, 0.6]), "max_sigs": 4, "expr_depth": 1, "p_constraints": 0.7, "p_ff_child": rng.choice([0, 0.3]), "p_func": rng.choice([0, 0.3])}
 
 
 def nm(x):
@@ -252,12 +252,24 @@ CL_SRC = """
 from pymtl3 import *
 from pymtl3.stdlib.queues.cl_queues import PipeQueueCL, BypassQueueCL, NormalQueueCL
 class Wrap(Component):
-  def construct(s, Q, n):
+  def construct(s, Q, n, via_func=False):
     s.q = Q(n)
     s.got = []
-    @update_once
-    def up_enq():
-      if s.q.enq.rdy(): s.q.enq(1)
+    if via_func:
+      # the child's methods are called inside a helper (two deep): the block calls them only through the helpers
+      @s.func
+      def do_enq():
+        if s.q.enq.rdy(): s.q.enq(1)
+      @s.func
+      def do_enq_outer():
+        do_enq()
+      @update_once
+      def up_enq():
+        do_enq_outer()
+    else:
+      @update_once
+      def up_enq():
+        if s.q.enq.rdy(): s.q.enq(1)
     @update_once
     def up_deq():
       if s.q.deq.rdy(): s.got.append(s.q.deq())
@@ -268,7 +280,7 @@ class Wrap(Component):
     s.add_constraints( M(s.q.deq) < U(up_obs) )          # the parent's own constraint on a method of the child
 class TopCL(Component):
   def construct(s, Q0, Q1, n):
-    s.w = [Wrap(Q0, n), Wrap(Q1, n)]
+    s.w = [Wrap(Q0, n, n % 2 == 0), Wrap(Q1, n, n % 3 == 0)]
     s.cnt = 0
     @update_once
     def up_t():
@@ -283,7 +295,7 @@ def run_cl_case(sh, case):
   try:
     Qs = [mod.PipeQueueCL, mod.BypassQueueCL, mod.NormalQueueCL]
     q0, q1, qn = rng.choice(Qs), rng.choice(Qs), rng.choice(Qs)
-    n = rng.randrange(1, 4)
+    n = rng.randrange(1, 7)
     slot = rng.randrange(2)
     topA = mod.TopCL(q0, q1, n); topA.elaborate()
     W = lambda kind, **kw: sh.violation(kind, dict(kw, original=[q0.__name__, q1.__name__], replaced_slot=slot, new=qn.__name__), case=case,
@@ -293,7 +305,7 @@ def run_cl_case(sh, case):
       if how == "inner":
         topA.replace_component(topA.w[slot].q, qn)
       else:
-        topA.replace_component_with_obj(topA.w[slot], mod.Wrap(qn, n))
+        topA.replace_component_with_obj(topA.w[slot], mod.Wrap(qn, n, n % (2 + slot) == 0))
     except Exception:
       W("replace_component-raised", error=traceback.format_exc()[-500:]); return
     qs = [q0, q1]; qs[slot] = qn
